@@ -15,10 +15,11 @@ As coded in `instancing.py` (after the fixes `C17-proxy-*`):
 * `instOutputs`        = the `for out in inst.outputs` loop (`instance:name;Output` forms)
 * `parseParam`         = one `paramNN` value of `func_instance_parms`
 
-Names are compared after `casefold()`; the model uses ASCII lower-casing (`foldStr`), the tie is for
-ASCII names.
+Names are compared after `casefold()`; the model folds character-wise with the `CharFold` table
+(`foldStr`), ASCII lower-casing by default.
 -/
 namespace C17
+variable [CharFold]
 
 /-- `vmf.Output` -/
 structure Out where
@@ -33,7 +34,7 @@ structure Out where
   commaSep : Bool
   deriving Repr, BEq, DecidableEq
 
-def foldStr (s : List Char) : List Char := s.map lowerAscii
+def foldStr (s : List Char) : List Char := s.map CharFold.lw
 
 /-- `Output.combine(first, second)`; `times < 0` means "unlimited". -/
 def combineTimes (a b : Int) : Int := if b < 0 then a else if a < 0 then b else min a b
